@@ -50,6 +50,46 @@ impl Tag for Z {
     }
 }
 
+// ---- boxes made by foreign code (Boxes.tla: own = "foreign" | "loan") -------------------------------------------------
+// The two published words filled in by hand.  The maker's release function checks that it is given a pointer it handed
+// out and that it sees it only once (released storage stays registered, so a second release is counted, not undefined).
+#[repr(C)]
+struct RawBox<T> {
+    instance: *mut T,
+    drop_fn: Option<unsafe extern "C" fn(*mut T)>,
+}
+static F_LIVE: std::sync::Mutex<Vec<usize>> = std::sync::Mutex::new(Vec::new());
+static F_DEAD: std::sync::Mutex<Vec<usize>> = std::sync::Mutex::new(Vec::new());
+static F_BAD: AtomicUsize = AtomicUsize::new(0);
+unsafe extern "C" fn f_release<T>(p: *mut T) {
+    let mut live = F_LIVE.lock().unwrap();
+    match live.iter().position(|&x| x == p as usize) {
+        Some(i) => {
+            live.swap_remove(i);
+            ledger::untracked(|| F_DEAD.lock().unwrap().push(p as usize));
+            drop(live);
+            drop(Box::from_raw(p));
+        }
+        None => {
+            F_BAD.fetch_add(1, SeqCst);
+        }
+    }
+}
+/// returns the box and the storage the environment keeps for a loan
+fn foreign_box<T>(v: T, owned: bool) -> (CBox<'static, T>, *mut T) {
+    let p = Box::into_raw(Box::new(v));
+    if owned {
+        ledger::untracked(|| F_LIVE.lock().unwrap().push(p as usize));
+    }
+    let raw = RawBox { instance: p, drop_fn: if owned { Some(f_release::<T> as unsafe extern "C" fn(*mut T)) } else { None } };
+    assert_eq!(std::mem::size_of::<RawBox<T>>(), std::mem::size_of::<CBox<'static, T>>());
+    (unsafe { std::mem::transmute_copy::<RawBox<T>, CBox<'static, T>>(&raw) }, p)
+}
+enum Lent {
+    H(*mut Heavy),
+    P(*mut Pod),
+}
+
 enum B {
     BoxH(CBox<'static, Heavy>),
     BoxZ(CBox<'static, Z>),
@@ -71,6 +111,8 @@ struct Slot {
     form: &'static str,
     pk: &'static str,
     ids: Vec<usize>,
+    own: &'static str,
+    lent: Option<Lent>,
 }
 
 struct World {
@@ -78,6 +120,7 @@ struct World {
     next: usize,
     zids: Vec<usize>,      // ids handed to zero-sized payloads, in creation order
     pids: Vec<usize>,      // ids handed to plain-data payloads (no destructor to count)
+    kept: Vec<(Vec<usize>, Lent)>, // storage lent through a box that is gone: the environment's to destroy
     zdropped: Vec<usize>,  // ids the model says are dropped (zero-sized), to compare counts
     base: ledger::Snap,
 }
@@ -86,7 +129,10 @@ impl World {
     fn new(n: usize) -> Self {
         payload::reset_ids();
         Z_DROPS.store(0, SeqCst);
-        World { slots: (0..n).map(|_| None).collect(), next: 1, zids: vec![], pids: vec![], zdropped: vec![], base: ledger::snap() }
+        F_LIVE.lock().unwrap().clear();
+        F_DEAD.lock().unwrap().clear();
+        F_BAD.store(0, SeqCst);
+        World { slots: (0..n).map(|_| None).collect(), next: 1, zids: vec![], pids: vec![], kept: vec![], zdropped: vec![], base: ledger::snap() }
     }
     fn fresh(&mut self, pk: &str) -> usize {
         let id = self.next;
@@ -100,12 +146,37 @@ impl World {
         id
     }
     fn apply(&mut self, e: &Value) {
-        let s = e["s"].as_u64().unwrap() as usize - 1;
+        let s = e["s"].as_u64().unwrap_or(1) as usize - 1;
         match e["op"].as_str().unwrap() {
+            "EnvRelease" => {
+                for (_, l) in std::mem::take(&mut self.kept) {
+                    ledger::track(|| unsafe {
+                        match l {
+                            Lent::H(p) => drop(Box::from_raw(p)),
+                            Lent::P(p) => drop(Box::from_raw(p)),
+                        }
+                    });
+                }
+            }
             "New" => {
                 let (kind, pk, n, via) = (e["kind"].as_str().unwrap(), e["pk"].as_str().unwrap(), e["n"].as_u64().unwrap() as usize, e["via"].as_str().unwrap());
                 let ids: Vec<usize> = (0..n).map(|_| self.fresh(pk)).collect();
+                let mut lent = None;
                 let b = ledger::track(|| match (kind, pk) {
+                    ("cbox", "heavy") if via == "foreign" || via == "loan" => {
+                        let (b, p) = foreign_box(Heavy::new(ids[0], ids[0] as i64), via == "foreign");
+                        if via == "loan" {
+                            lent = Some(Lent::H(p));
+                        }
+                        B::BoxH(b)
+                    }
+                    ("cbox", "pod") if via == "foreign" || via == "loan" => {
+                        let (b, p) = foreign_box(Pod::new(ids[0]), via == "foreign");
+                        if via == "loan" {
+                            lent = Some(Lent::P(p));
+                        }
+                        B::BoxP(b)
+                    }
                     ("cbox", "heavy") => {
                         let h = Heavy::new(ids[0], ids[0] as i64);
                         B::BoxH(match via { "from_t" => CBox::from(h), "from_box" => CBox::from(Box::new(h)), _ => CBox::from((h, NoContext::default())) })
@@ -123,7 +194,8 @@ impl World {
                     _ => B::ObjZ(TagBaseBox::from(Z)),
                 });
                 let (k, p): (&'static str, &'static str) = (match kind { "cbox" => "cbox", "sbox" => "sbox", _ => "obj" }, match pk { "heavy" => "heavy", "pod" => "pod", _ => "zst" });
-                self.slots[s] = Some(Slot { b, kind: k, form: "typed", pk: p, ids });
+                let own = match via { "foreign" => "foreign", "loan" => "loan", _ => "rust" };
+                self.slots[s] = Some(Slot { b, kind: k, form: "typed", pk: p, ids, own, lent });
             }
             "IntoOpaque" => {
                 let mut sl = self.slots[s].take().unwrap();
@@ -194,7 +266,11 @@ impl World {
                 if let B::BoxP(b) = &sl.b {
                     assert_eq!(b.tag() as usize, sl.ids[0]);
                 }
-                ledger::track(|| drop(sl.b));
+                let Slot { b, ids, lent, .. } = sl;
+                ledger::track(|| drop(b));
+                if let Some(l) = lent {
+                    self.kept.push((ids, l));
+                }
             }
             _ => unreachable!(),
         }
@@ -202,11 +278,30 @@ impl World {
     /// compare with the model: slots exactly; heavy payload drop counts per id; zero-sized: total count
     fn compare(&self, exp: &Value) -> Option<String> {
         let slots: Vec<Value> = self.slots.iter().map(|s| match s {
-            None => json!(["free", "typed", "heavy", []]),
-            Some(s) => json!([s.kind, s.form, s.pk, s.ids]),
+            None => json!(["free", "typed", "heavy", [], "rust"]),
+            Some(s) => json!([s.kind, s.form, s.pk, s.ids, s.own]),
         }).collect();
         if json!(slots) != exp["slots"] {
             return Some(format!("slots differ: got {} expected {}", json!(slots), exp["slots"]));
+        }
+        let kept: Vec<bool> = (1..self.next).map(|i| self.kept.iter().any(|(ids, _)| ids.contains(&i))).collect();
+        if json!(kept) != exp["kept"] {
+            return Some(format!("payloads still held by the environment differ: got {} expected {}", json!(kept), exp["kept"]));
+        }
+        // what the environment still holds must be intact
+        for (ids, l) in self.kept.iter() {
+            let ok = unsafe {
+                match l {
+                    Lent::H(p) => (**p).check() && (**p).id as usize == ids[0],
+                    Lent::P(p) => (**p).tag() as usize == ids[0],
+                }
+            };
+            if !ok {
+                return Some(format!("the value lent through a box (payload {}) was destroyed or altered by dropping the box", ids[0]));
+            }
+        }
+        if F_BAD.load(SeqCst) > 0 {
+            return Some("the release function of a box made by foreign code was given a pointer it never handed out, or the same one twice".into());
         }
         let ed = exp["drops"].as_array().unwrap();
         let mut zexp = 0;
@@ -236,8 +331,23 @@ impl World {
         let mut ztotal = 0;
         for s in self.slots.iter_mut() {
             if let Some(sl) = s.take() {
-                ledger::track(|| drop(sl.b));
+                let Slot { b, ids, lent, .. } = sl;
+                ledger::track(|| drop(b));
+                if let Some(l) = lent {
+                    self.kept.push((ids, l));
+                }
             }
+        }
+        for (_, l) in std::mem::take(&mut self.kept) {
+            ledger::track(|| unsafe {
+                match l {
+                    Lent::H(p) => drop(Box::from_raw(p)),
+                    Lent::P(p) => drop(Box::from_raw(p)),
+                }
+            });
+        }
+        if F_BAD.load(SeqCst) > 0 || !F_LIVE.lock().unwrap().is_empty() {
+            return Some(format!("boxes made by foreign code: {} never given back to their release function, {} bad releases", F_LIVE.lock().unwrap().len(), F_BAD.load(SeqCst)));
         }
         for (id, d) in payload::drop_table() {
             if d != 1 {
